@@ -5,7 +5,7 @@ from __future__ import annotations
 import ast
 
 from ..cfg import dominators
-from ..itermut import IterMut
+from ._c05_iter import IterMutX
 from ..model import AnalysisError, unparse
 from ..report import RuleResult
 from ..roles import param
@@ -21,7 +21,8 @@ def rule_itermut(ctx) -> RuleResult:
         "iterating a copy or rebinding the list is safe",
         floor=25,
     )
-    im = IterMut(ctx.p, max_depth=8 if ctx.tier == "quick" else 14)
+    # the engine's loops, plus the same obligation behind a local alias / getattr / a comprehension or generator (see _c05_iter.py)
+    im = IterMutX(ctx.p, max_depth=8 if ctx.tier == "quick" else 14)
     for fn, loop, owner, attr in im.loops():
         chain_ = im.check_loop(fn, loop, owner, attr)
         inst = f"{fn.qualname}:{loop.lineno} for {unparse(loop.target)} in {owner}.{attr}"
@@ -784,6 +785,7 @@ def rule_sweep(ctx) -> RuleResult:
         fv = ctx.view(f0)
         slot = fv.params.index(q) - (1 if fv.kind in ("method", "classmethod") else 0)
         passed = {}
+        upstream_shut = {}
         for caller in funcs:
             cv = None
             for cc0 in ast.walk(caller.node):
@@ -801,9 +803,11 @@ def rule_sweep(ctx) -> RuleResult:
                 elif isinstance(a, ast.Name) and a.id in caller.params:
                     if caller.node is f0.node and a.id == q:
                         continue  # recursion handing the parameter on
-                    up, _ = reaching(caller, a.id, cc0, depth + 1)
+                    up, shut = reaching(caller, a.id, cc0, depth + 1)
                     for v, at in up.items():
                         passed.setdefault(v, at)
+                    for v, at in shut.items():
+                        upstream_shut.setdefault(v, at)  # kept away by a test of the forwarding caller: still an evaluated obligation
                 else:
                     raise AnalysisError(f"C05.SWEEP: {caller.qualname}:{cc0.lineno} passes a container that is not a constant to {f0.name}")
         if not passed:
@@ -820,6 +824,9 @@ def rule_sweep(ctx) -> RuleResult:
         for v, at in passed.items():
             seen = reach(g, [g.entry], q, {"const:" + q: v})
             (yes if any(n in seen for n in site) else no)[v] = at
+        for v, at in upstream_shut.items():
+            if v not in yes:
+                no.setdefault(v, at)
         return yes, no
 
     for fn0 in funcs:
@@ -1177,15 +1184,20 @@ def rule_deferred(ctx) -> RuleResult:
     regs = [f0 for f0 in ws.methods.values() if any(isinstance(c, ast.Call) and name_of(c.func) == "insert_once" for c in ast.walk(f0.node))]
     for f0 in regs:
         rv = sem_view(ctx, f0)
-        R = Fx(rv)
         ev = param(rv, 0)
         rs = rv.self_name
-        if ev is None:
+        if ev is None or rs is None:
             continue
+
+        def registries(R, feasible):
+            # the first argument of the registrations reached for this kind: self.<table> itself, a local / a helper's result that stands for
+            # it, getattr(self, <name chosen per kind>)
+            return [(c.args[0], n) for n in feasible for c in R.calls(n) if name_of(c.func) == "insert_once" and c.args]
+
         for kname, cont in expect.items():
-            seen_ = R.reach([R.g.entry], ev, KindFacts(p, p.cls(kname), excluded=[p.cls("EntityType")]))
-            regd = {a.attr for n in seen_ for c in R.calls(n) if name_of(c.func) == "insert_once" and c.args
-                    for a in [R.x(c.args[0])] if isinstance(a, ast.Attribute) and unparse(a.value) == rs}
+            regd = {x[1:] for x in containers_of_kind(p, rv, ev, p.cls(kname), universe=_AnyName(), ctx=ctx, symbols=True, probe=registries) if x.startswith(".")}
+            if not regd:
+                raise AnalysisError(f"C05.DEFERRED: {f0.qualname}: the registry of {kname} entities (first argument of insert_once) could not be determined")
             for t in sorted(regd):
                 ok = tables.get(t) == cont
                 res.inst(f"{f0.qualname}: {kname} entities are kept in {rs}.{t}, swept into '{tables.get(t)}'", nontrivial=True, ok=ok)
@@ -1307,10 +1319,38 @@ def rule_deferred(ctx) -> RuleResult:
         if f0.name == "remove_none_referents":
             continue
         s0 = f0.self_name
-        for c in ast.walk(f0.node):
-            if not isinstance(c, ast.Call):
+        if s0 is None or not any(isinstance(y, ast.Attribute) and y.attr in tables for y in ast.walk(f0.node)) \
+                and not any(isinstance(y, ast.Constant) and y.value in tables for y in ast.walk(f0.node)) and f0 not in regs:
+            continue
+        fv = f0  # the function as written: a callee that forgets keys must be seen as a call, not expanded in place
+        FV = Fx(fv)
+        subj = param(fv, 0)
+
+        def tables_of(arg, call):
+            """the swept tables an argument can stand for: self.<table> (through aliases), getattr(self, "<table>"), or — in a function of an
+            entity — a local / helper result / getattr chosen per kind"""
+            x = FV.x(arg)
+            if isinstance(x, ast.Attribute) and unparse(x.value) == s0:
+                return {x.attr} & set(tables)
+            if isinstance(x, ast.Call) and name_of(x.func) == "getattr" and len(x.args) >= 2 and unparse(x.args[0]) == s0 and isinstance(x.args[1], ast.Constant):
+                return {x.args[1].value} & set(tables)
+            if subj is None or not isinstance(x, (ast.Name, ast.Call)):
+                return set()
+            out_ = set()
+
+            def at_call(F_, feas):
+                n_ = F_.node_of(call)
+                return [(arg, n_)] if n_ is not None and n_ in feas else []
+
+            for kname in expect:
+                vs = containers_of_kind(p, fv, subj, p.cls(kname), universe=_AnyName(), ctx=ctx, symbols=True, probe=at_call)
+                out_ |= {v[1:] for v in vs if v.startswith(".")} & set(tables)
+            return out_
+
+        for c in ast.walk(fv.node):
+            if not isinstance(c, ast.Call) or name_of(c.func) in ("getattr", "isinstance", "remove_none_referents"):
                 continue
-            hits = [(i, a.attr) for i, a in enumerate(c.args) if isinstance(a, ast.Attribute) and unparse(a.value) == s0 and a.attr in tables]
+            hits = [(i, t) for i, a in enumerate(c.args) if isinstance(a, (ast.Attribute, ast.Name, ast.Call)) for t in sorted(tables_of(a, c))]
             if not hits:
                 continue
             r = p.resolve_expr(f0.module, c.func) if isinstance(c.func, (ast.Name, ast.Attribute)) else None
